@@ -568,3 +568,95 @@ def must_facts(cfg: CFG, transfer: Callable[[Node, frozenset], frozenset], join=
             OUT[x] = out
             work.extend(cfg.succ[x])
     return {k: v for k, v in IN.items() if v is not None}
+
+
+def explore_facts(cfg: CFG, transfer: Callable[[Node, frozenset], Optional[frozenset]], start: Optional[int] = None,
+                  init: frozenset = frozenset(), limit: int = 50000) -> Dict[int, Set[frozenset]]:
+    """Path-sensitive forward exploration: every node gets the SET of fact sets with which it can be reached (no join, so
+    correlations between variables survive).  `transfer(node, facts)` returns the facts after the node, or None when the
+    node cannot be passed with these facts (an `assume` that contradicts them): the path is infeasible and dropped."""
+    start = cfg.entry if start is None else start
+    seen: Dict[int, Set[frozenset]] = {n.id: set() for n in cfg.nodes}
+    work = [(start, init)]
+    steps = 0
+    while work:
+        nid, facts = work.pop()
+        if facts in seen[nid]:
+            continue
+        seen[nid].add(facts)
+        steps += 1
+        if steps > limit:
+            raise AnalysisError("cfg", "explore_facts: state limit exceeded")
+        out = transfer(cfg.nodes[nid], facts)
+        if out is None:
+            continue
+        for s in cfg.succ[nid]:
+            work.append((s, out))
+    return seen
+
+
+def none_facts_transfer(node: Node, facts: frozenset) -> Optional[frozenset]:
+    """facts ("none", v) / ("nn", v) about local names being None / not None, from assignments and `is None` tests"""
+    f = set(facts)
+
+    def known(v):
+        return "none" if ("none", v) in f else ("nn" if ("nn", v) in f else None)
+
+    def atoms(test, positive):
+        if isinstance(test, ast.UnaryOp) and isinstance(test.op, ast.Not):
+            return atoms(test.operand, not positive)
+        if isinstance(test, ast.BoolOp):
+            if (isinstance(test.op, ast.And) and positive) or (isinstance(test.op, ast.Or) and not positive):
+                out = []
+                for v in test.values:
+                    a = atoms(v, positive)
+                    if a is None:
+                        return None
+                    out.extend(a)
+                return out
+            # a disjunction known true (or conjunction known false): if all but one alternative are refuted, the last holds
+            alts = []
+            for v in test.values:
+                a = atoms(v, positive)
+                if a is None:
+                    return []  # unknown alternative: nothing to learn
+                refuted = any((k == "none" and known(x) == "nn") or (k == "nn" and known(x) == "none") for k, x in a)
+                if not refuted:
+                    alts.append(a)
+            if not alts:
+                return None  # every alternative contradicts the facts: infeasible
+            return alts[0] if len(alts) == 1 else []
+        if isinstance(test, ast.Compare) and len(test.ops) == 1 and isinstance(test.left, ast.Name) \
+                and isinstance(test.comparators[0], ast.Constant) and test.comparators[0].value is None and isinstance(test.ops[0], (ast.Is, ast.IsNot)):
+            is_none = isinstance(test.ops[0], ast.Is) == positive
+            return [("none" if is_none else "nn", test.left.id)]
+        return []
+
+    if node.kind == "assume":
+        a = atoms(node.ast, bool(node.taken))
+        if a is None:
+            return None
+        for k, v in a:
+            if known(v) is not None and known(v) != k:
+                return None
+            f.add((k, v))
+    elif node.kind == "stmt" and isinstance(node.ast, (ast.Assign, ast.AugAssign, ast.AnnAssign)):
+        tgts = node.ast.targets if isinstance(node.ast, ast.Assign) else [node.ast.target]
+        for t in tgts:
+            for nm in ast.walk(t):
+                if isinstance(nm, ast.Name) and isinstance(nm.ctx, ast.Store):
+                    f = {x for x in f if x[1] != nm.id}
+        if isinstance(node.ast, ast.Assign) and len(tgts) == 1 and isinstance(tgts[0], ast.Name):
+            v = node.ast.value
+            if isinstance(v, ast.Constant):
+                f.add(("none" if v.value is None else "nn", tgts[0].id))
+            elif isinstance(v, ast.Name) and known(v.id):
+                f.add((known(v.id), tgts[0].id))
+            elif isinstance(v, (ast.List, ast.Tuple, ast.Dict, ast.Set, ast.BinOp, ast.JoinedStr)) or (
+                    isinstance(v, ast.Call) and isinstance(v.func, ast.Name) and v.func.id in ("slice", "int", "list", "str", "len", "range")):
+                f.add(("nn", tgts[0].id))
+    elif node.kind == "iter":
+        for nm in ast.walk(node.ast.target):
+            if isinstance(nm, ast.Name):
+                f = {x for x in f if x[1] != nm.id}
+    return frozenset(f)
